@@ -58,7 +58,7 @@ class PoolError(Exception):
     pass
 
 
-def pool_map(fn, items, nworkers=None, wall_cap=None, init=None, progress=None):
+def pool_map(fn, items, nworkers=None, wall_cap=None, init=None, progress=None, fini=None):
     """Run fn(item) for every item in forked workers (static stride partition).  Yields nothing; returns list of
     (item_index, result) sorted by index.  Worker exceptions are returned as {"__harness_error__": ...}.
     Raises PoolError if the wall cap is exceeded or a worker dies."""
@@ -90,6 +90,8 @@ def pool_map(fn, items, nworkers=None, wall_cap=None, init=None, progress=None):
                     out.write(json.dumps([i, res], default=str) + "\n")
                     out.flush()
                 out.close()
+                if fini:
+                    fini()
             except BaseException:
                 code = 3
             finally:
@@ -178,7 +180,8 @@ def match_known(known, prop, finding):
 
 def write_replay(prop, doc):
     os.makedirs(REPLAY_DIR, exist_ok=True)
-    blob = json.dumps(doc, sort_keys=True, indent=1, default=str)
+    # never sort keys here: insertion order of dicts inside a case (e.g. qualifier keys) can be the essence of a failure
+    blob = json.dumps(doc, indent=1, default=str)
     dig = hashlib.sha256(blob.encode()).hexdigest()[:12]
     path = os.path.join(REPLAY_DIR, f"{prop}-{dig}.json")
     with open(path, "w") as f:
